@@ -1609,6 +1609,8 @@ class C10(Prop):
                     continue
                 L0 = lasers[j]
                 twin = (_copy.deepcopy if st.get("deep") else _copy.copy)(L0["laser"])
+                if not st.get("deep"):  # a shallow copy also shares the dict of calibrations: give the twin its own, so that
+                    twin.calibration = dict(twin.calibration)  # removing an element from one laser does not break the other
                 L = {**L0, "laser": twin, "fields": list(L0["fields"])}
                 if twin.config is L0["laser"].config:
                     feats.add("copy.copy of a laser: the configuration object is shared")
